@@ -1164,7 +1164,7 @@ DEPTH_MAX = 2600
 DEPTH_WINDOW = 24
 
 
-def depth_sweep(shape: str, optimized: bool) -> dict:
+def depth_sweep(shape: str, optimized: bool, window: int = DEPTH_WINDOW) -> dict:
     """{"first": n0, "loads": k, "bads": [...]}: n0 = the first depth whose text does not load; every depth within DEPTH_WINDOW
     of it is checked for totality"""
     mk = DEPTH_SHAPES[shape]
@@ -1189,7 +1189,7 @@ def depth_sweep(shape: str, optimized: bool) -> dict:
             else:
                 hi = mid
     bads = []
-    for n in range(max(1, hi - DEPTH_WINDOW), hi + DEPTH_WINDOW + 1):
+    for n in range(max(1, hi - window), hi + window + 1):
         loads += 1
         bad = check_total(mk(n), optimized)
         if bad:
@@ -1198,9 +1198,9 @@ def depth_sweep(shape: str, optimized: bool) -> dict:
 
 
 def _depth_job(job):
-    shape, optimized = job
+    shape, optimized, window = job
     _limit()
-    return job, depth_sweep(shape, optimized)
+    return (shape, optimized), depth_sweep(shape, optimized, window)
 
 
 def _probe_job(job):
@@ -1288,16 +1288,18 @@ def run(out: Outcome) -> None:
                 pre_bads.append({"text": cps(t), "class": "exception:Timeout", "optimizer": "default" if o else "none",
                                  "observed": f"Timeout: no result within {LOAD_TIMEOUT_S} s", "expected": "a Parser or a PestGrammarError"})
         # (stacked + or {,2} under the optimizer is the open finding huge-repetition-bound: e+ -> e ~ e* doubles the operand at every level)
-        for kind, res in run_chunks(_depth_job, [(sh, o) for sh in DEPTH_SHAPES for o in (False, True) if not (o and sh in ("postfix +", "postfix {,2} and ?"))], 120.0):
+        dwin = 3 * DEPTH_WINDOW if out.tier == "thorough" else DEPTH_WINDOW
+        for kind, res in run_chunks(_depth_job, [(sh, o, dwin) for sh in DEPTH_SHAPES for o in (False, True)
+                                                 if not (o and sh in ("postfix +", "postfix {,2} and ?"))], 300.0):
             if kind == "ok":
                 (sh, o), r = res
                 stats["depth_sweep_loads"] += r["loads"]
                 depth_first[f"{sh} / {'default' if o else 'none'}"] = r["first"]
                 pre_bads += r["bads"][:4]
             elif kind == "hung":
-                sh, o = res
+                sh, o = res[0], res[1]
                 pre_bads.append({"text": cps(DEPTH_SHAPES[sh](DEPTH_MAX)), "class": "exception:NoReturn", "optimizer": "default" if o else "none",
-                                 "observed": f"the depth sweep of shape {sh!r} did not finish within 120 s",
+                                 "observed": f"the depth sweep of shape {sh!r} did not finish within 300 s",
                                  "expected": "a Parser or a PestGrammarError"})
         hanging = {uncps(b["text"]) for b in pre_bads if b["class"] in ("exception:NoReturn", "exception:Timeout")}
         texts = [t for t in texts if t not in hanging]
@@ -1475,7 +1477,7 @@ def run(out: Outcome) -> None:
             "not_reproduced_on_recheck": not_reproduced,
             "correspondence_requests": ncorr,
             "correspondence_mismatches": ncorr_bad,
-            "depth_sweep": {"loads": stats.get("depth_sweep_loads", 0), "window": DEPTH_WINDOW,
+            "depth_sweep": {"loads": stats.get("depth_sweep_loads", 0), "window": 3 * DEPTH_WINDOW if out.tier == "thorough" else DEPTH_WINDOW,
                             "first_depth_that_does_not_load": depth_first},
             "samples": samples,
         }
